@@ -3,6 +3,10 @@
 mod alloc;
 mod codec;
 mod corpus;
+mod dbdump;
+mod dbgen;
+mod dbq;
+mod dbrun;
 mod gen_types;
 mod rng;
 mod sexp;
@@ -71,6 +75,27 @@ fn main() {
             write_lines(&format!("{}/impl{}.txt", out, sfx), &ctx.imp);
             write_lines(&format!("{}/oracle{}.txt", out, sfx), &ctx.oracle);
             write_stats(&format!("{}/stats{}.json", out, sfx), &ctx.stats, ctx.cases.len() as u64, ctx.nontrivial, &ctx.samples);
+        }
+        "db" => {
+            let opts = dbrun::Opts {
+                profile: dbgen::profile_of(&arg(&args, "--profile", "all")),
+                steps: arg(&args, "--steps", "30").parse().unwrap(),
+                rev: arg(&args, "--rev", "pinned"),
+                dump_every: arg(&args, "--dump-every", "10").parse().unwrap(),
+                variants: { let v = arg(&args, "--variants", ""); if v.is_empty() { vec![] } else { v.split(',').map(|x| x.to_string()).collect() } },
+                maintenance: arg(&args, "--maintenance", "0") == "1",
+                dir: out.clone(),
+            };
+            let mut o = dbrun::Out::new();
+            let mut r = rng::Rng::new(seed);
+            for h in 0..n {
+                let mut hr = r.fork();
+                dbrun::run_history(&mut hr, &opts, &mut o, h);
+            }
+            write_lines(&format!("{}/cases.txt", out), &o.cases);
+            write_lines(&format!("{}/impl.txt", out), &o.imp);
+            write_lines(&format!("{}/oracle.txt", out), &o.oracle);
+            write_stats(&format!("{}/stats.json", out), &o.stats, o.histories, o.nontrivial, &o.samples);
         }
         _ => {
             eprintln!("unknown command {}", cmd);
